@@ -666,6 +666,13 @@ def apply_preset(resp, preset):
         resp.data = b'stale data'
     if 'media' in preset:
         resp.media = {'stale': 'media'}
+    # set, but falsy: '' / b'' / [] are response content like any other and must be discarded just the same
+    if 'text_empty' in preset:
+        resp.text = ''
+    if 'data_empty' in preset:
+        resp.data = b''
+    if 'media_empty' in preset:
+        resp.media = []
     if 'rendered' in preset and not isinstance(resp, falcon.asgi.Response):
         # the public render_body() may be called early (e.g. by a digest / ETag hook): what it cached must be
         # discarded together with text / data / media when an exception is handled afterwards
@@ -929,7 +936,7 @@ def _choice_case(draw):
     primary = {
         'site': draw(st.sampled_from(SITES)),
         'cls': draw(st.sampled_from(raise_pool)),
-        'preset': sorted(draw(st.sets(st.sampled_from(['text', 'data', 'media', 'media', 'rendered']), max_size=3))),
+        'preset': sorted(draw(st.sets(st.sampled_from(['text', 'data', 'media', 'media', 'rendered', 'text_empty', 'media_empty', 'data_empty']), max_size=3))),
     }
     second = None
     if draw(st.sampled_from([False, False, True])):
@@ -1440,7 +1447,8 @@ class ResetEnum(Suite):
     def cases(self, tier):
         import itertools
         for stack in ('wsgi', 'asgi'):
-            for pre in itertools.product((False, True), repeat=3):
+            # per attribute: 0 = not set, 1 = set, 2 = set to a falsy value ('' / b'' / [])
+            for pre in itertools.product((0, 1, 2), repeat=3):
                 for render in (False, True):
                     for action in ('noop', 'status', 'text', 'media', 'raise_status', 'raise_error'):
                         yield {'stack': stack, 'pre': list(pre), 'render': render, 'action': action}
@@ -1452,11 +1460,11 @@ class ResetEnum(Suite):
 
         def prepare(resp):
             if pre_text:
-                resp.text = 'prepared text'
+                resp.text = 'prepared text' if pre_text == 1 else ''
             if pre_data:
-                resp.data = b'prepared data'
+                resp.data = b'prepared data' if pre_data == 1 else b''
             if pre_media:
-                resp.media = {'prepared': 'media'}
+                resp.media = {'prepared': 'media'} if pre_media == 1 else []
 
         def compose(resp):
             if action == 'status':
